@@ -329,6 +329,7 @@ class Expect:
         faces = am.faces if faces is None else faces
         for f in faces:
             self.face_pos.append([(am.lon[i], am.lat[i]) if pos is None else pos[i] for i in f])
+        self.face_ids = [list(f) for f in faces] if pos is None or len(pos) >= 0 else None   # node ids as the source lists them
         self.aux = {}                      # name -> expectation (see c01.spec_check)
         self.n_node = None                 # expected n_node when the format fixes it
 
